@@ -181,3 +181,32 @@ harness! {
         kani::cover!(k.is_none(), "no grid key reached");
     }
 }
+
+harness! {
+    // bound: select_balanced_simplex_indices / reorder_vertices_for_simplex (hooks), D=2, every input length 0..=3 with UNRESTRICTED coordinates: no panic; fewer than D+1 vertices => None
+    #[kani::unwind(7)]
+    fn c19_simplex_selection_short_inputs() {
+        let v = [
+            Vertex::<f64, (), 2>::new_with_uuid(any_pt2(), uuid_n(1), None),
+            Vertex::<f64, (), 2>::new_with_uuid(any_pt2(), uuid_n(2), None),
+            Vertex::<f64, (), 2>::new_with_uuid(any_pt2(), uuid_n(3), None),
+        ];
+        let r0 = hooks::select_balanced_simplex_indices(&v[..0]);
+        let r1 = hooks::select_balanced_simplex_indices(&v[..1]);
+        let r2 = hooks::select_balanced_simplex_indices(&v[..2]);
+        let r3 = hooks::select_balanced_simplex_indices(&v[..3]);
+        assert!(r0.is_none() && r1.is_none() && r2.is_none(), "fewer than D+1 vertices: no simplex");
+        if let Some(sel) = &r3 {
+            assert!(sel.len() == 3 && sel[0] < 3 && sel[1] < 3 && sel[2] < 3);
+        }
+        let e = hooks::reorder_vertices_for_simplex(&v[..0], &[0, 1, 2]);
+        assert!(e.is_none());
+        kani::cover!(r3.is_some(), "selection on 3 vertices reached");
+        kani::cover!(r3.is_none(), "selection refused (non-finite coordinate) reached");
+        core::mem::forget(r0);
+        core::mem::forget(r1);
+        core::mem::forget(r2);
+        core::mem::forget(r3);
+        core::mem::forget(e);
+    }
+}
